@@ -24,6 +24,8 @@ Replay ==
        [] E.op = "ifelse"   -> NewIfElse(E.seq, E.pos)
        [] E.op = "dangling" -> NewDangling
        [] E.op = "attach"   -> Attach(E.seq, E.pos, E.d, E.kind)
+       [] E.op = "attachif" -> AttachIf(E.seq, E.pos, E.d, E.v)
+       [] E.op = "brtable"  -> BrTable(E.seq, E.pos, E.d, E.v)
        [] E.op = "br"       -> Branch(E.seq, E.pos, E.d, FALSE)
        [] E.op = "brif"     -> Branch(E.seq, E.pos, E.d, TRUE)
 
